@@ -1,0 +1,86 @@
+//! Ghost monitors for external verification harnesses. Compiled only with the
+//! `verif_hooks` cargo feature (off by default); never used by the crate itself.
+//!
+//! * read trace: every source read of a match attempt is recorded so that a
+//!   harness can assert that read offsets never decrease within an attempt,
+//!   never fall below the attempt's start, and that the number of reads is
+//!   linear in the bytes examined.
+//! * interface preconditions: the conditions under which the generated code may
+//!   call `LexerInternal::end` / `end_to_boundary`.
+use core::sync::atomic::{AtomicBool, AtomicUsize, Ordering::Relaxed};
+
+/// Start of the current match attempt.
+pub static FLOOR: AtomicUsize = AtomicUsize::new(0);
+/// Offset of the most recent read of the current attempt.
+pub static LAST_OFFSET: AtomicUsize = AtomicUsize::new(0);
+/// Number of reads of the current attempt.
+pub static READS: AtomicUsize = AtomicUsize::new(0);
+/// One past the highest byte examined by the current attempt.
+pub static HIGH: AtomicUsize = AtomicUsize::new(0);
+/// Number of attempts started (by `next` or by a skip).
+pub static ATTEMPTS: AtomicUsize = AtomicUsize::new(0);
+/// Total number of reads since `reset`.
+pub static TOTAL_READS: AtomicUsize = AtomicUsize::new(0);
+/// A read started before the previous read of the same attempt.
+pub static WENT_BACKWARDS: AtomicBool = AtomicBool::new(false);
+/// A read started before the start of the attempt.
+pub static BELOW_FLOOR: AtomicBool = AtomicBool::new(false);
+/// More than `4 * bytes examined + 4` reads in one attempt.
+pub static TOO_MANY_READS: AtomicBool = AtomicBool::new(false);
+/// `end` / `end_to_boundary` called outside of their contract.
+pub static BAD_END: AtomicBool = AtomicBool::new(false);
+
+/// Clear the monitor.
+pub fn reset() {
+    FLOOR.store(0, Relaxed);
+    LAST_OFFSET.store(0, Relaxed);
+    READS.store(0, Relaxed);
+    HIGH.store(0, Relaxed);
+    ATTEMPTS.store(0, Relaxed);
+    TOTAL_READS.store(0, Relaxed);
+    WENT_BACKWARDS.store(false, Relaxed);
+    BELOW_FLOOR.store(false, Relaxed);
+    TOO_MANY_READS.store(false, Relaxed);
+    BAD_END.store(false, Relaxed);
+}
+
+/// A new match attempt starts at `pos`.
+pub fn attempt_start(pos: usize) {
+    FLOOR.store(pos, Relaxed);
+    LAST_OFFSET.store(pos, Relaxed);
+    READS.store(0, Relaxed);
+    HIGH.store(pos, Relaxed);
+    ATTEMPTS.store(ATTEMPTS.load(Relaxed).wrapping_add(1), Relaxed);
+}
+
+/// The source of length `len` is read at `offset` for `size` bytes.
+pub fn on_read(offset: usize, size: usize, len: usize) {
+    if offset < LAST_OFFSET.load(Relaxed) {
+        WENT_BACKWARDS.store(true, Relaxed);
+    }
+    let floor = FLOOR.load(Relaxed);
+    if offset < floor {
+        BELOW_FLOOR.store(true, Relaxed);
+    }
+    LAST_OFFSET.store(offset, Relaxed);
+    let end = offset.saturating_add(size).min(len);
+    if end > HIGH.load(Relaxed) {
+        HIGH.store(end, Relaxed);
+    }
+    let reads = READS.load(Relaxed).wrapping_add(1);
+    READS.store(reads, Relaxed);
+    TOTAL_READS.store(TOTAL_READS.load(Relaxed).wrapping_add(1), Relaxed);
+    let examined = HIGH.load(Relaxed).saturating_sub(floor);
+    if reads > examined.saturating_mul(4).saturating_add(4) {
+        TOO_MANY_READS.store(true, Relaxed);
+    }
+}
+
+/// `end(offset)` / `end_to_boundary(offset)` is called with the token starting at
+/// `start` in a source of length `len`; `boundary` tells whether `offset` had to be
+/// (and was) a valid boundary.
+pub fn on_end(start: usize, offset: usize, len: usize, boundary: bool) {
+    if !(start <= offset && offset <= len && boundary) {
+        BAD_END.store(true, Relaxed);
+    }
+}
